@@ -1023,7 +1023,7 @@ def cache_fft(time_series, ij, lb=0, ub=None,
     cache = {'FFT_slices': FFT_slices, 'FFT_conj_slices': FFT_conj_slices,
              'norm_val': norm_val, 'Fs': Fs, 'scale_by_freq': scale_by_freq}
 
-    return freqs, cache
+    return freqs[lb_idx:ub_idx], cache
 
 
 def cache_to_psd(cache, ij):
